@@ -74,6 +74,16 @@ class C07Bounded(Bounded):
             nonlocal ev, nontriv
             ev += 1
             strict = None
+            given = copy.deepcopy(doc)
+            try:
+                fn(given)
+            except SigmaError as e:
+                strict = e
+            except Exception:
+                given = None
+            if given is not None and given != doc and "input" not in seen:      # loading reads the document, it does not consume it (a caller may load the same parsed documents again)
+                fail("input", f"loading of {kind} with {label} modified the document it was given: {str(doc)[:150]} -> {str(given)[:150]}", [kind, label, "input modified"])
+            strict = None
             try:
                 fn(copy.deepcopy(doc))
             except SigmaError as e:
@@ -103,6 +113,20 @@ class C07Bounded(Bounded):
                 check(kind, setp(base, p, None, delete=True), fn, f"key {'/'.join(map(str, p))} deleted")
                 for w in (WRONG if tier != "quick" else WRONG[:-5:2] + ["not-a-uuid", "5x", "2023-02-30", "2021/6/31", 10 ** 400, float("inf"), float("nan")]):
                     check(kind, setp(base, p, w), fn, f"{'/'.join(map(str, p))} = {lab(w)}")
+        # keys of the log source map that are named like attributes of the log source OBJECT (not of the specification)
+        for extra in ({"source": "x"}, {"custom_attributes": {"a": 1}}, {"source": None, "custom_attributes": "y"}, {"definition": "d", "source": ["l"]}):
+            for kind, base, fn in (("rule", RULE, SigmaRule.from_dict), ("filter", FILT, SigmaFilter.from_dict)):
+                check(kind, setp(base, ("logsource",), {**base["logsource"], **extra}), fn, f"logsource with the extra keys {sorted(extra)}")
+        # the verdict on a document does not depend on documents loaded before: an invalid regular expression is an error every time
+        for key, val in (("f|re", "a(b"), ("f|re|contains", "a(?i)b"), ("f|re|i", "[z-a]")):
+            for _ in range(3):
+                check("rule", setp(RULE, ("detection", "sel"), {key: val}), SigmaRule.from_dict, f"detection/sel = {{{key!r}: {val!r}}} (repeated)")
+            ev += 1
+            try:
+                SigmaRule.from_dict(setp(RULE, ("detection", "sel"), {key: val}))
+                fail("repeat", f"the invalid regular expression {val!r} under {key} is accepted when the same document is loaded again", [key, val])
+            except SigmaError:
+                pass
         # modifier chains whose later modifier cannot take what the earlier one produces (incl. behind an expanding modifier)
         for key in ("f|windash|i", "f|base64offset|hour", "f|windash|m", "f|base64offset|gt", "f|windash|base64offset|i", "f|contains|re", "f|re|contains", "f|cidr|contains", "f|wide|cidr", "f|exists|windash"):
             for val in ("-a b", ["-a", "x"], 5):
